@@ -1,4 +1,5 @@
 import ComposeVerif.Lemmas.TravLts
+import ComposeVerif.Lemmas.TravInvM
 import ComposeVerif.Props.C13
 /-!
 # C13, round 6 — more theorems about the transition system `Trav.step?` (the model of `graph.walk`)
@@ -201,5 +202,28 @@ theorem prerequisite_entered_first {g : Graph} {lim : Option Nat} (hg : GraphOK 
 
 /-- non-vacuity: on the diamond 0 is a transitive prerequisite of 3 -/
 example : PreChain diamond 0 3 := .cons (.one (by decide)) (by decide) (by decide : 1 ∈ diamond.pre 3)
+
+/-! ### the two branches of `step?` that no schedule reaches -/
+
+/-- **the caller is never refused**: the caller of `walk` only tries vertices without prerequisite and the coordinator
+only vertices with one (`post` ⊆ converse of `pre`), so in every reachable state the caller's readiness test succeeds and
+its claim wins: the `else` branches of `step?` at `.ready .M` and `.enter .M` are dead.  This is what the label coverage
+printed by the harness (`lts-label-*`: every rule and branch of `step?` taken by accepted real schedules) leaves out. -/
+theorem caller_never_refused {g : Graph} {lim : Option Nat} (hg : GraphOK g) (hpp : ∀ v u, u ∈ g.post v → v ∈ g.pre u)
+    {s : St} (h : Reach g lim s) (todo : List V) (v : V) :
+    (s.m = some ⟨todo, .ready v⟩ → step? g lim s (.ready .M) = some (putSched s .M (some ⟨todo, .enter v⟩))) ∧
+    (s.m = some ⟨todo, .enter v⟩ → step? g lim s (.enter .M) =
+      some (putSched { s with status := setStatus s.status v .entered } .M (some ⟨todo, .spawn v⟩))) := by
+  have hI := reach_invM hg hpp h
+  constructor
+  · intro hm
+    have hpre : g.pre v = [] := hI.mExt v (by simp [hm, schedVs])
+    simp [step?, getSched, hm, hpre]
+  · intro hm
+    have habs : s.status v = .absent := hI.mAbsent v (by simp [hm, pendVs])
+    simp [step?, getSched, hm, habs]
+
+/-- non-vacuity: the diamond's `post` is inside the converse of its `pre` -/
+example : ∀ v ∈ diamond.verts, ∀ u ∈ diamond.post v, v ∈ diamond.pre u := by decide
 
 end CV.Trav
